@@ -245,6 +245,7 @@ type c37Col struct {
 	Name  string
 	Class string // int dec float str bin text blob json date datetime timestamp time year enum set bit bool
 	Fsp   int
+	Len   int // declared length of char/binary types (bounds index prefix lengths)
 	Gen   bool
 	PK    bool
 }
@@ -339,7 +340,9 @@ func c37GenColSpec(rt *rapid.T, m *c37Model, class string, allowGen bool) c37Spe
 		typ = fmt.Sprintf("%s(%d)", rapid.SampledFrom([]string{"VARCHAR", "VARCHAR", "CHAR"}).Draw(rt, "strtype"), n)
 		if strings.HasPrefix(typ, "CHAR") && n > 255 {
 			typ = "CHAR(255)"
+			n = 255
 		}
+		sp.Col.Len = n
 		if rapid.IntRange(0, 2).Draw(rt, "hascoll") > 0 {
 			c := rapid.SampledFrom(c37Collations).Draw(rt, "collation")
 			if rapid.Bool().Draw(rt, "charsetform") {
@@ -359,6 +362,7 @@ func c37GenColSpec(rt *rapid.T, m *c37Model, class string, allowGen bool) c37Spe
 		}
 	case "bin":
 		typ = rapid.SampledFrom([]string{"VARBINARY(16)", "BINARY(4)", "VARBINARY(300)"}).Draw(rt, "type")
+		sp.Col.Len = map[string]int{"VARBINARY(16)": 16, "BINARY(4)": 4, "VARBINARY(300)": 300}[typ]
 		defLits = []string{"'ab'"}
 		defExprs = []string{"(UNHEX('6162'))"}
 	case "text":
@@ -523,8 +527,13 @@ func c37GenIndexDef(rt *rapid.T, m *c37Model) (name, def string, ok bool) {
 		p := "`" + c.Name + "`"
 		if c.Class == "text" || c.Class == "blob" {
 			p += fmt.Sprintf("(%d)", rapid.IntRange(1, 20).Draw(rt, "idx.prefix"))
-		} else if (c.Class == "str" || c.Class == "bin") && rapid.IntRange(0, 4).Draw(rt, "idx.hasprefix") == 0 {
-			p += "(1)"
+		} else if (c.Class == "str" || c.Class == "bin") && c.Len > 0 && rapid.IntRange(0, 2).Draw(rt, "idx.hasprefix") == 0 {
+			// prefix lengths on leading and on non-leading columns: (a(3),b), (a,b(5),c), (a,b(5),c(2))
+			max := c.Len
+			if max > 10 {
+				max = 10
+			}
+			p += fmt.Sprintf("(%d)", rapid.IntRange(1, max).Draw(rt, "idx.prefixlen"))
 		}
 		parts = append(parts, p)
 	}
@@ -574,12 +583,14 @@ func c37GenCheckDef(rt *rapid.T, m *c37Model) (name, def string, refs []string, 
 	return name, def, refs, true
 }
 
+// c37IndexExpect: SHOW CREATE TABLE must render the index with its column list, prefix lengths
+// included, exactly as the DDL wrote it.
 func c37IndexExpect(name, def string) []string {
-	e := []string{"key `" + name + "`"}
-	if strings.HasPrefix(def, "UNIQUE") {
-		e = []string{"unique key `" + name + "`"}
+	frag := def
+	if i := strings.Index(frag, " COMMENT "); i >= 0 {
+		frag = frag[:i]
 	}
-	return e
+	return []string{strings.ToLower(frag)}
 }
 
 func c37CheckExpect(name, def string) []string {
@@ -990,7 +1001,7 @@ func TestVerif_C37(t *testing.T) {
 	})
 	remoteSeq := 0
 	maxAlters := vh.N(6, 10)
-	vh.Check(t, "ddl", 60, 250, func(rt *rapid.T) {
+	vh.Check(t, "ddl", 120, 250, func(rt *rapid.T) {
 		dbA := srv.NewDBName()
 		dbB := dbA + "_ind"
 		dbC := dbA + "_copy"
